@@ -248,6 +248,7 @@ fn lifecycles<T: Subject>(ctx: &Ctx, maxlen: usize, secrets: &[[u8; 32]]) {
         ctx.eval(1);
         n_seq += 1;
         let case = json!({"kind": "lifecycle", "type": T::NAME, "ops": seq.iter().map(|o| format!("{:?}", o)).collect::<Vec<_>>()});
+        ctx.case(&case.to_string());
         let r = guarded(|| {
             observe(|| {
                 let mut regs: Vec<Option<Box<T>>> = Vec::with_capacity(4);
@@ -345,6 +346,7 @@ pub fn run(ctx: &Ctx) {
         for k in c03::pool(if quick { 4 } else { 10 }, true) {
             ctx.eval(1);
             let case = json!({"kind": "zeroize", "point": k.name});
+            ctx.case(&case.to_string());
             let mut p = k.real;
             p.zeroize();
             let c = c03::coords_of(&p);
@@ -399,6 +401,7 @@ pub fn run(ctx: &Ctx) {
             ctx.eval(1);
             let scalars: Vec<Scalar> = v.iter().map(real::scalar).collect();
             let case = json!({"kind": "heap_multiscalar", "n": n, "scalars": v.iter().map(|x| x.hex()).collect::<Vec<_>>()});
+            ctx.case(&case.to_string());
             match guarded(|| observe(|| EdwardsPoint::multiscalar_mul(scalars.iter(), points.iter()))) {
                 Err(e) => ctx.violation("heap.multiscalar_mul", &format!("panic: {}", e), case),
                 Ok((res, log)) => {
@@ -437,6 +440,7 @@ pub fn run(ctx: &Ctx) {
             ctx.eval(1);
             let mut scalars: Vec<Scalar> = v.iter().map(real::scalar).collect();
             let case = json!({"kind": "heap_batch_invert", "n": n, "scalars": v.iter().map(|x| x.hex()).collect::<Vec<_>>()});
+            ctx.case(&case.to_string());
             let r_int = U::pow2(curve25519_dalek::verif::SC_LIMB_BITS as usize * curve25519_dalek::verif::SC_LIMBS);
             match guarded(|| observe(|| Scalar::batch_invert(&mut scalars))) {
                 Err(e) => ctx.violation("heap.batch_invert", &format!("panic: {}", e), case),
